@@ -1,4 +1,39 @@
-"""C12 — a link and its complement are one edge."""
+"""C12 — a link and its complement are one edge.
+
+Four kinds of case, all decided on the real library against an independent text-level algebra (compl_text / norm /
+canon below):
+  alg    one link a and a second link b (its complement / the same / one field changed / unrelated): complement()
+         is right, involutive (claim codes MIDP=XH), does not mutate; the overlap's reference and query lengths are
+         exchanged; is_same / is_complement / is_eql are repeatable, symmetric and equal to the text-level truth.
+  graph  one link in a Gfa (levels 0-3, with or without S lines): adding its complement raises nothing and changes
+         nothing; a link differing in one field (overlaps both specified) is accepted and stored as a further link.
+  path   one link stored in either form, one 2-segment path over it in either direction with the overlap given or `*`,
+         every arrival order of the S/L/P lines: one link, not virtual, referenced by the path with the right flag.
+  multi  a whole document: 1-3 pairs of segment ends (self-links and hairpins included), each joined by 1-3 PARALLEL
+         links which differ only in their specified overlap (random, or a near miss of another one of the group:
+         complemented, reversed, one length changed), each written in either form, some also in their other form as a
+         further L line; 0-3 paths of 1-3 steps over these links in either direction, overlaps given or `*` per step;
+         S lines mostly present; random arrival order (or S,L,P blocks); levels 0-3.  Checked:
+           - the Gfa stores exactly one link per edge, in the form which arrived first; no placeholder link is left;
+           - every step of every path is resolved (object identity) to THE stored link with that overlap from either
+             form (to any link between the two segment ends for a `*` step), flag + iff the step is the stored form
+             (no claim where the two forms cannot be told apart: self-complementary oriented pair with `*` or a
+             self-complementary overlap); link.paths lists exactly the paths resolved to the link;
+           - afterwards, for EVERY stored link (whatever its position among the links of its segment end): adding its
+             other form raises nothing and changes nothing; a path added now over it, in each direction, is resolved
+             to it with the right flag and creates no link.
+         This is where lookup "from either form" is exercised with more than one candidate link per segment end.
+
+Signatures ending in -star-path-first: the failing step has a specified overlap and was resolved while a placeholder
+link with overlap `*` (made for a `*` step of an earlier path / an earlier step of the same path) stood for the not yet
+arrived links between the same two segment ends.  On the unchanged library such a step stays bound to whichever link
+replaces that placeholder (wrong link when there are parallel links, wrong flag for a hairpin): a genuine
+arrival-order defect, reported, not hidden (about 1 case in 1000).
+
+NOT CHECKED: tags of links; a placeholder-overlap link sharing its segment ends with another link (what `*` is a
+duplicate of is not settled by the property); lookup through the private Gfa._search_link (only its public users:
+add_line and path resolution); GFA2 edges.
+"""
 import itertools, json
 from harness import lib
 from harness.lib import op
@@ -21,8 +56,10 @@ LEAN = {
 }
 RULE = ("random links over a 5-name pool (self-links, hairpins), CIGARs of 0-4 operations over MIDP=XH (10% also S/N, "
         "outside the involution claim), four orientation pairs; graph cases add link/complement/different link; path "
-        "cases run every arrival order of S/L/P lines. Non-trivial: overlap specified with >=2 operations or a "
-        "self-link, or a path case.")
+        "cases run every arrival order of S/L/P lines; multi cases are whole documents with 1-3 parallel links (differing "
+        "only in the overlap) per pair of segment ends, in either form, with 0-3 paths of 1-3 steps, in random arrival "
+        "order, then the complement of every stored link is added and a path over every stored link in each direction. "
+        "Non-trivial: overlap specified with >=2 operations or a self-link, or a path or multi case.")
 ASSUMPTIONS = ["tags take no part in link identity (not modelled)",
                "the add-complement and path clauses are decided on the real library by the oracle and by the graph-model "
                "correspondence of C02/C03; the theorems here cover the algebra"]
@@ -229,12 +266,18 @@ def ltext(l):
 
 def nontrivial(case):
     a = case["a"]
-    return case["kind"] == "path" or a[0] == a[2] or len(ops_of(a[4])) >= 2
+    return case["kind"] in ("path", "multi") or a[0] == a[2] or len(ops_of(a[4])) >= 2
 
 
 def tags(case):
     a = case["a"]
     t = [case["kind"], "self" if a[0] == a[2] else "nonself", "ops%d" % len(ops_of(a[4]))]
+    if case["kind"] == "multi":
+        links, paths = parse_doc(case["lines"])
+        per = {}
+        for l in links:
+            per.setdefault(pairkey(l), set()).add(canon(l))
+        t = ["multi", "parallel%d" % max(len(v) for v in per.values()), "paths" if paths else "nopaths"]
     if case["kind"] == "alg":
         t.append("rel_compl" if norm(case["b"]) == norm(compl_text(a)) else ("rel_same" if norm(case["b"]) == norm(a) else "rel_other"))
     return t
